@@ -89,6 +89,28 @@ namespace CDNS {
         explicit BlockTable() {}
 
         /**
+         * @brief Copy constructor. The index holds references to the stored items, so it has to
+         * be rebuilt to refer to the copied items instead of the items of the source table.
+         */
+        BlockTable(const BlockTable& other) : items_(other.items_)
+        {
+            rebuild_index();
+        }
+
+        /**
+         * @brief Copy assignment operator (see copy constructor).
+         */
+        BlockTable& operator=(const BlockTable& rhs)
+        {
+            if ( this != &rhs )
+            {
+                items_ = rhs.items_;
+                rebuild_index();
+            }
+            return *this;
+        }
+
+        /**
          * @brief Find if a key value is in the list
          * 
          * @param key the key value to search for.
@@ -220,6 +242,17 @@ namespace CDNS {
             res -= 1;
             indexes_[KeyRef<K>(items_.back().key())] = res;
             return res;
+        }
+
+        /**
+         * @brief Rebuild the key index from the stored items.
+         */
+        void rebuild_index()
+        {
+            indexes_.clear();
+            CDNS::index_t pos = 0;
+            for ( const T& item : items_ )
+                indexes_[KeyRef<K>(item.key())] = pos++;
         }
 
         std::deque<T> items_;
